@@ -117,9 +117,12 @@ def expr_lit(e):
     if c == "ConstantMul":
         return "(ConstantMul %s %s)" % (L(e["base"]), bt_scalar(e["c"]))
     if c in ("BlockDiag", "BlockInterleaved", "SumBatch"):
-        if e.get("block_dim", -3) != -3:
-            raise ValueError("block_dim != -3 is not expressible")
-        return "(%s %s)" % (c, L(e["base"]))
+        # block_dim: "the dimension that specifies the blocks".  The model's constructors take the blocks from the LAST
+        # batch dimension; another block_dim is written as the same constructor over the base whose leaf tensors have
+        # that batch dimension moved to the last batch position (move_batch: the documented meaning, plain movedim on the
+        # leaves) - the library's own route (BlockLinearOperator.__init__ -> _permute_batch of the operator tree) is what
+        # is compared against it.
+        return "(%s %s)" % (c, L(move_batch(e["base"], e.get("block_dim", -3))))
     if c == "BatchRepeat":
         return "(BatchRepeat %s %s)" % (L(e["base"]), natlist(list(e["rep"])[::-1]))
     if c == "Cat":
@@ -146,6 +149,70 @@ def expr_lit(e):
             raise ValueError("kernel parameter c is not expressible")
         return "(Kernel %s %s %s)" % (bt_mat(e["x1"]), bt_mat(e["x2"]), "true" if e.get("square") else "false")
     raise ValueError("unknown class %s" % c)
+
+
+# ------------------------------------------------------------------------------------------ block_dim normalisation
+
+def _mv(t, p, nb, trailing):
+    """tensor spec with nb batch dims + `trailing` matrix dims: batch dimension p -> last batch position"""
+    if len(t["shape"]) != nb + trailing:
+        raise ValueError("operand does not carry the full batch shape")
+    x = ob.tt(t)
+    y = ob.from_torch(torch.movedim(x, p, nb - 1).contiguous())
+    return y
+
+
+def move_batch(e, block_dim):
+    """the expression whose leaf tensors have batch dimension `block_dim` (torch convention, counted in the full shape)
+    moved to the last batch position; ValueError where an operand does not carry the full batch shape"""
+    nb = len(ob.shape_of(e)) - 2
+    p = block_dim + nb + 2 if block_dim < 0 else block_dim
+    if not 0 <= p < nb:
+        raise ValueError("block_dim out of range")
+    if p == nb - 1:
+        return e
+
+    def go(x):
+        c = x["cls"]
+        if len(ob.shape_of(x)) - 2 != nb:
+            raise ValueError("child does not carry the full batch shape")
+        y = dict(x)
+        if c in ("Dense", "UserMinimal", "Triangular", "Chol"):
+            y["t"] = _mv(x["t"], p, nb, 2)
+        elif c == "Diag":
+            y["d"] = _mv(x["d"], p, nb, 1)
+        elif c == "ConstantDiag":
+            y["c"] = _mv(x["c"], p, nb, 1)
+        elif c == "Toeplitz":
+            y["col"] = _mv(x["col"], p, nb, 1)
+        elif c == "Permutation":
+            y["perm"] = _mv(x["perm"], p, nb, 1)
+        elif c in ("Root", "LowRankRoot"):
+            r = x["root"]
+            y["root"] = go(r) if (isinstance(r, dict) and "cls" in r) else _mv(r, p, nb, 2)
+        elif c == "Identity":
+            b = list(x.get("batch", []))
+            y["batch"] = b[:p] + b[p + 1:] + [b[p]]
+        elif c == "Kernel":
+            y["x1"], y["x2"] = _mv(x["x1"], p, nb, 2), _mv(x["x2"], p, nb, 2)
+        elif c in ("Sum", "PsdSum", "Kron", "KronDiag", "KronTriangular"):
+            y["ops"] = [go(k) for k in x["ops"]]
+        elif c == "Matmul":
+            y["l"], y["r"] = go(x["l"]), go(x["r"])
+        elif c == "ConstantMul":
+            y["base"] = go(x["base"])
+            if len(x["c"]["shape"]) not in (0, nb):
+                raise ValueError("constant with a partial batch shape")
+            if len(x["c"]["shape"]) == nb:
+                y["c"] = _mv(x["c"], p, nb, 0)
+        elif c in ("AddedDiag", "KronAddedDiag", "LowRankRootAddedDiag", "SumKron"):
+            for k in ("base", "diag", "kron", "root", "a", "b"):
+                if isinstance(x.get(k), dict) and "cls" in x[k]:
+                    y[k] = go(x[k])
+        else:
+            raise ValueError("move_batch: class %s" % c)
+        return y
+    return go(e)
 
 
 # ------------------------------------------------------------------------------------------ tree helpers
@@ -383,6 +450,11 @@ TILINGS = [([2], [2]), ([2], [3, 2]), ([2, 3], [2, 1]), ([3], [1, 2]), ([2, 1], 
 TILE_CHILDREN = ["Dense", "Toeplitz", "Kron", "Sum", "Matmul", "Diag", "BlockDiag", "Masked", "Interpolated", "Cat", "Kernel", "UserMinimal"]
 
 
+# (base batch shape, block_dim) - block_dim in torch convention (index into the full shape, negative from the right)
+BLOCKDIMS = [([3, 2, 4], 0), ([3, 2, 2], -5), ([2, 3], 0), ([2, 3, 2], -4), ([2, 3, 1, 2], 1), ([2, 1, 3], -5), ([3, 2, 4], -3)]
+BLOCKDIM_CHILDREN = ["Dense", "Toeplitz", "Diag", "Sum", "Root", "Kron", "Matmul", "ConstantMul"]
+
+
 def cells(quick):
     """deterministic structural grid: (cls, child or None, batch kind, size kind, depth)"""
     out = []
@@ -414,6 +486,15 @@ def cells(quick):
             if quick and (ti + chi) % 2:
                 continue
             out.append(("BatchRepeatTile", ch, bk[ti], sk[(ti + chi) % len(sk)], 2))
+    # block operators with a block_dim that is NOT the last batch dimension (BlockLinearOperator.__init__ moves it there
+    # with _permute_batch): 2..4 batch dimensions, block dimension first / second / middle, the batch dimensions that
+    # follow it of equal and of different sizes
+    for cls in ("BlockDiag", "BlockInterleaved", "SumBatch"):
+        for gi, (bb, bd) in enumerate(BLOCKDIMS):
+            for chi, ch in enumerate(BLOCKDIM_CHILDREN):
+                if quick and (gi + chi) % 2:
+                    continue
+                out.append(("BlockDim:" + cls, ch, str(gi), ("sq2", "1x1", "wide")[(gi + chi) % 3] if cls != "BlockDiag" else ("sq2", "1x1")[(gi + chi) % 2], 2))
     if not quick:
         for ci, cls in enumerate(ob.ALL):
             for b in bk:
@@ -431,6 +512,15 @@ def gen_expr(rng, cell):
         base = ob.gen(rng, child or "Dense", batch=list(base_batch), m=m, n=n, depth=max(1, depth - 1))
         e = {"cls": "BatchRepeat", "base": base, "rep": list(rep)}
         return sanitize(rng, e, cell)
+    if cls.startswith("BlockDim:"):
+        bb, bd = BLOCKDIMS[int(b)]
+        kind = cls.split(":")[1]
+        if child == "Root":
+            base = ob.gen(rng, "Root", batch=list(bb), m=m, n=n, depth=1)
+        else:
+            base = ob.gen(rng, child, batch=list(bb), m=m, n=(m if kind == "BlockDiag" else n), depth=1, child="Dense",
+                          psd=(kind == "BlockDiag" and child == "Kron"))
+        return {"cls": kind, "base": base, "block_dim": bd}
     if cls == "Root" and child is not None:
         # RootLinearOperator over an OPERATOR root (opbuild.gen only makes tensor roots): R R^T with R of class `child`;
         # this is the public path into the children's _t_matmul
@@ -622,8 +712,8 @@ def observe_all(ctx, rng, cell_list):
         try:
             lit = expr_lit(e)
         except ValueError:
-            skipped["inexpressible"] += 1
-            continue
+            skipped["inexpressible"] += 1    # no Coq literal: the case is still judged by the direct predicate
+            lit = None
         try:
             op64 = ob.build(e, torch.float64)
             op32 = ob.build(e, torch.float32)
@@ -757,11 +847,12 @@ def run(ctx):
     mism = []
     if ok:
         shards = []
+        all_cases, cases = cases, [cs for cs in cases if cs["lit"] is not None]
         for i in range(0, len(cases), SH):
             shards.append(("c01_%d" % (i // SH), shard_src(cases[i:i + SH])))
         res = {}
-        for i in range(0, len(shards), 6):          # at most 6 shard compilers at a time
-            res.update(common.run_shards(ctx, shards[i:i + 6]))
+        for i in range(0, len(shards), 3):          # at most 3 shard compilers at a time
+            res.update(common.run_shards(ctx, shards[i:i + 3]))
         for si, (name, _) in enumerate(shards):
             rc, out = res[name]
             bad = common.parse_coq_list_of_nat(out) if rc == 0 else None
@@ -797,6 +888,8 @@ def run(ctx):
                                       {"note": "the implementation agrees with the dense oracle; coq/C01/Model.v does not"}),
                           no_input=True)
 
+    if ok:
+        cases = all_cases
     evals = sum(len(cs["rows"]) for cs in cases)
     keys = set()
     cls_hist = {}
